@@ -50,9 +50,22 @@ class MonkeyPatcher:
         Reverse this operation using L{restore}.
         """
         for obj, name, value in self._patches_to_apply:
-            original_value = getattr(obj, name, self._NO_SUCH_ATTRIBUTE)
+            original_value = self._get_original(obj, name)
             self._originals.append((obj, name, original_value))
             setattr(obj, name, value)
+
+    def _get_original(self, obj, name):
+        # What the object's own namespace holds, if it holds the name: for a
+        # staticmethod or classmethod of a class getattr() returns the
+        # underlying function or a bound method, and putting that back would
+        # leave the class with something that behaves differently.
+        try:
+            namespace = vars(obj)
+        except TypeError:
+            namespace = {}
+        if name in namespace:
+            return namespace[name]
+        return getattr(obj, name, self._NO_SUCH_ATTRIBUTE)
 
     def restore(self):
         """Restore all original values to any patched objects.
